@@ -1,5 +1,8 @@
-"""Per-property configuration of check.py: suites (name, quick count, thorough count),
-what is proved, what is modelled rather than verified."""
+"""Per-property configuration of check.py, one JSON file per property under bin/props/
+(suites = [name, quick count, thorough count]; proved_scope / not_proved; modelled; assumptions)."""
+import glob
+import json
+import os
 
 EXTERNAL = [
     "modelled, not verified: xmlparser 0.13.6 tokenizer, indextree 4.7.2 arena, encoding_rs/xhtmlchardet decoders, genawaiter, ahash (DESIGN.md section 6)",
@@ -98,3 +101,9 @@ PROPS = {
         "assumptions": ["arguments are live handles", "when consolidation is on the forest holds no adjacent text nodes before the call (always true while consolidation was never switched off)"],
     },
 }
+PROPS = {}
+for _path in sorted(glob.glob(os.path.join(os.path.dirname(os.path.abspath(__file__)), "props", "C*.json"))):
+    with open(_path, encoding="utf-8") as _f:
+        _cfg = json.load(_f)
+    _cfg["suites"] = [tuple(s) for s in _cfg["suites"]]
+    PROPS[os.path.basename(_path)[:-5]] = _cfg
